@@ -113,6 +113,19 @@ func (lc *logClassifier) instr(i ssa.Instruction) string {
 		if _, ok := c19LogSafe[cn]; ok {
 			return ""
 		}
+		// building the line in a local strings.Builder / bytes.Buffer is formatting, like Sprintf
+		if strings.HasPrefix(cn, "(*strings.Builder).") || strings.HasPrefix(cn, "(*bytes.Buffer).") {
+			if len(c.Args) > 0 && isLocalAddr(c.Args[0]) {
+				return ""
+			}
+		}
+		if cn == "fmt.Fprintf" || cn == "fmt.Fprint" || cn == "fmt.Fprintln" {
+			if mi, ok := c.Args[0].(*ssa.MakeInterface); ok && isLocalAddr(mi.X) {
+				if t := mi.X.Type().String(); t == "*strings.Builder" || t == "*bytes.Buffer" {
+					return ""
+				}
+			}
+		}
 		for _, pre := range c19StdSafe {
 			if strings.HasPrefix(cn, pre) {
 				return ""
